@@ -25,7 +25,6 @@ import (
 
 func c19NilChampion(p *Prog, r *Run) {
 	r.Rule("C19.11", "a generation recorded without champion is tolerated by the per-trial best / champion series: in the functions reachable from Trial.BestOrganism, ChampionsFitness, ChampionSpeciesAges, ChampionsComplexities, Experiment.BestFitness, BestSpeciesAge, BestComplexity and Generation.ChampionComplexity every value loaded from Generation.Champion is dereferenced, passed to a function that dereferences it, or stored into a list only under a test that it is not nil", func() {
-		champ := p.Field(PkgE, "Generation", "Champion")
 		roots := []*ssa.Function{
 			p.Func(PkgE, "Trial.BestOrganism"), p.Func(PkgE, "Trial.ChampionsFitness"),
 			p.Func(PkgE, "Trial.ChampionSpeciesAges"), p.Func(PkgE, "Trial.ChampionsComplexities"),
@@ -42,95 +41,102 @@ func c19NilChampion(p *Prog, r *Run) {
 			}
 		}
 		sort.Slice(fns, func(i, j int) bool { return FuncName(fns[i]) < FuncName(fns[j]) })
-		nLoads, nUses := 0, 0
-		for _, fn := range fns {
-			r.Fn(FuncName(fn))
-			tm := NewTermer(fn)
-			for _, b := range fn.Blocks {
-				for _, in := range b.Instrs {
-					v, ok := in.(ssa.Value)
-					if !ok || !isChampionLoad(v, champ) {
-						continue
-					}
-					nLoads++
-					key := tm.Of(v).String()
-					same := func(x ssa.Value) bool {
-						if x == v {
-							return true
-						}
-						return isChampionLoad(x, champ) && tm.Of(x).String() == key
-					}
-					seen := map[ssa.Value]bool{}
-					var walk func(val ssa.Value)
-					walk = func(val ssa.Value) {
-						if seen[val] {
-							return
-						}
-						seen[val] = true
-						refs := val.Referrers()
-						if refs == nil {
-							return
-						}
-						for _, u := range *refs {
-							what := ""
-							switch u := u.(type) {
-							case *ssa.Phi:
-								walk(u)
-								continue
-							case *ssa.FieldAddr:
-								if u.X == val {
-									what = "reads ." + fieldNameOfAddr(u)
-								}
-							case *ssa.UnOp:
-								if u.X == val {
-									what = "dereferences it"
-								}
-							case *ssa.Store:
-								if u.Val == val {
-									if _, isElem := u.Addr.(*ssa.IndexAddr); isElem {
-										what = "puts it into a list"
-									}
-								}
-							case ssa.CallInstruction:
-								c := u.Common()
-								callee := c.StaticCallee()
-								for i, a := range c.Args {
-									if a != val {
-										continue
-									}
-									if callee == nil || len(callee.Blocks) == 0 {
-										if c.IsInvoke() || callee == nil {
-											continue // handed to an interface / library (fmt, append of a slice value): not a dereference by itself
-										}
-										continue
-									}
-									if w := derefsParamUnguarded(callee, i, 0); w != "" {
-										what = "hands it to " + FuncName(callee) + ", which " + w
-									}
-								}
-							}
-							if what == "" {
-								continue
-							}
-							nUses++
-							guarded := false
-							for _, g := range Guards(u.Block()) {
-								if GuardNilness(g, same) == -1 {
-									guarded = true
-								}
-							}
-							r.Check(guarded, fmt.Sprintf("champion.nil-tolerated:%s:%s", fn.Name(), what), p.Pos(u.Pos()),
-								"the champion is used only where it was tested against nil",
-								fmt.Sprintf("%s %s without a test that the generation has a champion: a generation recorded without champion (evaluator that neither solved nor filled the statistics; Generation.Encode itself anticipates it) makes the series panic or rank a nil organism, while the sibling series skip such a generation", FuncName(fn), what))
-						}
-					}
-					walk(v)
-				}
-			}
-		}
+		nLoads, nUses := nilChampionUses(p, r, fns, "a generation recorded without champion (evaluator that neither solved nor filled the statistics; Generation.Encode itself anticipates it) makes the series panic or rank a nil organism, while the sibling series skip such a generation")
 		r.Floor("loads of Generation.Champion in the per-trial series", nLoads, 5)
 		r.Floor("uses of a loaded champion that need the nil test", nUses, 4)
 	})
+}
+
+// nilChampionUses checks every value loaded from Generation.Champion in fns: a dereference, a hand-over to a function
+// that dereferences its parameter, or a store into a list happens only under a test that the value is not nil.
+func nilChampionUses(p *Prog, r *Run, fns []*ssa.Function, consequence string) (nLoads, nUses int) {
+	champ := p.Field(PkgE, "Generation", "Champion")
+	for _, fn := range fns {
+		r.Fn(FuncName(fn))
+		tm := NewTermer(fn)
+		for _, b := range fn.Blocks {
+			for _, in := range b.Instrs {
+				v, ok := in.(ssa.Value)
+				if !ok || !isChampionLoad(v, champ) {
+					continue
+				}
+				nLoads++
+				key := tm.Of(v).String()
+				same := func(x ssa.Value) bool {
+					if x == v {
+						return true
+					}
+					return isChampionLoad(x, champ) && tm.Of(x).String() == key
+				}
+				seen := map[ssa.Value]bool{}
+				var walk func(val ssa.Value)
+				walk = func(val ssa.Value) {
+					if seen[val] {
+						return
+					}
+					seen[val] = true
+					refs := val.Referrers()
+					if refs == nil {
+						return
+					}
+					for _, u := range *refs {
+						what := ""
+						switch u := u.(type) {
+						case *ssa.Phi:
+							walk(u)
+							continue
+						case *ssa.FieldAddr:
+							if u.X == val {
+								what = "reads ." + fieldNameOfAddr(u)
+							}
+						case *ssa.UnOp:
+							if u.X == val {
+								what = "dereferences it"
+							}
+						case *ssa.Store:
+							if u.Val == val {
+								if _, isElem := u.Addr.(*ssa.IndexAddr); isElem {
+									what = "puts it into a list"
+								}
+							}
+						case ssa.CallInstruction:
+							c := u.Common()
+							callee := c.StaticCallee()
+							for i, a := range c.Args {
+								if a != val {
+									continue
+								}
+								if callee == nil || len(callee.Blocks) == 0 {
+									if c.IsInvoke() || callee == nil {
+										continue // handed to an interface / library (fmt, append of a slice value): not a dereference by itself
+									}
+									continue
+								}
+								if w := derefsParamUnguarded(callee, i, 0); w != "" {
+									what = "hands it to " + FuncName(callee) + ", which " + w
+								}
+							}
+						}
+						if what == "" {
+							continue
+						}
+						nUses++
+						guarded := false
+						for _, g := range Guards(u.Block()) {
+							if GuardNilness(g, same) == -1 {
+								guarded = true
+							}
+						}
+						r.Check(guarded, fmt.Sprintf("champion.nil-tolerated:%s:%s", fn.Name(), what), p.Pos(u.Pos()),
+							"the champion is used only where it was tested against nil",
+							fmt.Sprintf("%s %s without a test that the generation has a champion: %s", FuncName(fn), what, consequence))
+					}
+				}
+				walk(v)
+			}
+		}
+	}
+	return nLoads, nUses
 }
 
 func isChampionLoad(v ssa.Value, champ *types.Var) bool {
